@@ -11,6 +11,7 @@
          4 MockMem (default methods only)     params [s1,l1,...]        any order, end <= 2^64
          5 AtomicBitmap                       params [byte_size, page_size]
          6 GuestAddress                       params []
+         7 AtomicBitmap::new(byte_size, page_size) then enlarge(k)   params [byte_size, page_size, k], byte_size + k < 2^64
      ty  0..3 = u8 u16 u32 u64 (size = align = 2^ty)
      op  (VolatileMemory / VolatileSlice)
          0 get_slice(a,b)  1 subslice(a,b)  2 offset(a)  3 split_at(a)  4 get_ref<T>(a)
@@ -183,8 +184,7 @@ Definition guest_cls (m : mode) (L : Guest.layout) (op ty a b c : N) : N :=
   end.
 
 (* ------------------------------------------------------------------ bitmaps *)
-Definition bitmap_cls (bs ps op a b c : N) : N :=
-  let bm := Bitmap.bm_new bs ps in
+Definition bitmap_ops_cls (bm : Bitmap.bitmap) (op a b c : N) : N :=
   match op with
   | 50 => cls_out cls0 (Bitmap.bm_set_addr_range_o bm a b)
   | 51 => cls_out cls0 (Bitmap.bm_reset_addr_range_o bm a b)
@@ -195,6 +195,13 @@ Definition bitmap_cls (bs ps op a b c : N) : N :=
   | 56 => cls_out cls0 (Bitmap.bs_mark_dirty_o bm (Bitmap.bs_new c) a b)
   | 57 => cls_out cls0 (Bitmap.bs_dirty_at_o bm (Bitmap.bs_new c) a)
   | 58 => cls_out cls0 (Bitmap.bs_dirty_at_o bm (Bitmap.bs_slice_at (Bitmap.bs_new c) a) b)
+  | _ => 2
+  end.
+Definition bitmap_cls (bs ps op a b c : N) : N := bitmap_ops_cls (Bitmap.bm_new bs ps) op a b c.
+(* the bitmap of target kind 7: created, then enlarged by k bytes (atomic_bitmap.rs:46-51), then ONE operation *)
+Definition bitmap_enl_cls (m : mode) (bs ps k op a b c : N) : N :=
+  match Bitmap.bm_enlarge_o m (Bitmap.bm_new bs ps) k with
+  | Val bm => bitmap_ops_cls bm op a b c
   | _ => 2
   end.
 
@@ -222,6 +229,7 @@ Definition run_C07 (c : case07) : N :=
       | Some L => guest_cls m L op (q_ty c) a b (q_c c)
       | None => 2 end
   | 5, [bs; ps] => bitmap_cls bs ps op a b (q_c c)
+  | 7, [bs; ps; k] => bitmap_enl_cls m bs ps k op a b (q_c c)
   | 6, [] => cls_out cls_opt (Address.a_checked_align_up m a b)
   | _, _ => 2
   end.
@@ -238,6 +246,7 @@ Definition op_ok (tgt op : N) : bool :=
   | 4 => ((13 <=? op) && (op <=? 20)) || ((40 <=? op) && (op <=? 49))
   | 5 => (50 <=? op) && (op <=? 58)
   | 6 => op =? 60
+  | 7 => (50 <=? op) && (op <=? 58)
   | _ => false
   end.
 Definition reg_okb (top : N) (p : N * N) : bool := (0 <? snd p) && (snd p <? W64) && (fst p + snd p <=? top).
@@ -261,6 +270,7 @@ Definition wf_tgt (c : case07) : bool :=
               | Some L => negb (length L =? 0)%nat && wf_layb W64 L
               | None => false end
   | 5, [bs; ps] => (0 <? ps) && (bs <? W64)
+  | 7, [bs; ps; k] => (0 <? ps) && (bs + k <? W64)       (* the sum fits usize: enlarge's `+=` does not overflow *)
   | 6, [] => true
   | _, _ => false
   end.
@@ -281,6 +291,7 @@ Definition small_par (c : case07) : bool :=
       (length par <=? 16)%nat &&
       match layout_of par with Some L => forallb (fun p => snd p <=? SMALL) L | None => false end
   | 5, [bs; ps] => (0 <? ps) && (div_ceil bs ps <=? 4096)
+  | 7, [bs; ps; k] => (0 <? ps) && (bs <? W64) && (k <? W64) && (div_ceil bs ps <=? 4096) && (div_ceil (bs + k) ps <=? 4096)
   | _, _ => true
   end.
 Definition small07 (c : case07) : bool :=
